@@ -1756,7 +1756,8 @@ class SampleSet(abc.Iterable, abc.Sized):
             selector = slice(None)
 
         if sorted_by is None:
-            record = self.record[selector]
+            # basic slicing returns a view, the new sample set must own its data
+            record = self.record[selector].copy()
         else:
             sort_indices = np.argsort(self.record[sorted_by])
             record = self.record[sort_indices[selector]]
